@@ -89,7 +89,8 @@ VALUES = ['1', '"s"', '2.5', '[1]', '{"k": 1}', '(1, "t")', 'None', 'Box()', 'le
 def new_state(rnd):
     """A small program as a structure: functions (return or yield a value expression, with a
     parameter list), one class, and module-level uses of every function."""
-    st = {'funcs': [], 'cls_attr': rnd.choice(VALUES[:5]), 'serial': 0}
+    st = {'funcs': [], 'cls_attr': rnd.choice(VALUES[:5]), 'serial': 0, 'crate_header': rnd.random() < 0.7,
+          'crate_tag': rnd.choice(VALUES[:5])}
     for _ in range(rnd.randint(2, 4)):
         add_func(st, rnd)
     return st
@@ -104,7 +105,12 @@ def add_func(st, rnd):
 
 def render_state(st):
     """Returns (text, positions) -- positions: cursor spots whose answers depend on the functions."""
-    L = ['class Box:', '    attr = %s' % st['cls_attr'], '    def get(self):', '        return self.attr', '']
+    L = ['class Box:', '    attr = %s' % st['cls_attr'], '    def get(self):', '        return self.attr']
+    # a second class whose header line comes and goes: without it, its members belong to Box
+    if st.get('crate_header'):
+        L.append('class Crate:')
+    L += ['    tag = %s' % st.get('crate_tag', '1'), '    def title(self):', '        return self.tag',
+          '    def header(self):', '        return self.title()', '']
     pos = []
     for f in st['funcs']:
         L.append('def %s(%s):' % (f['name'], f['params']))
@@ -126,12 +132,23 @@ def render_state(st):
         pos.append((len(L), len(L[-1])))                 # signature
     L.append('Box().get().')
     pos.append((len(L), len(L[-1])))
+    for k, probe in enumerate(('Box().', 'Crate().', 'Box().title().', 'Crate().header().', 'Box().header',
+                               'Crate.tag')):
+        L.append('sep_%d = %d' % (k, k))     # a complete statement between two half-typed ones
+        L.append(probe)
+        pos.append((len(L), len(probe)))
     return '\n'.join(L) + '\n', pos
 
 
 def edit_state(st, rnd):
     kind = rnd.choice(['toggle_kind', 'toggle_kind', 'value', 'params', 'params', 'rename', 'add',
-                       'remove', 'cls_attr', 'lead', 'doc'])
+                       'remove', 'cls_attr', 'lead', 'doc', 'toggle_header', 'toggle_header', 'crate_tag'])
+    if kind == 'toggle_header':
+        st['crate_header'] = not st.get('crate_header')
+        return kind
+    if kind == 'crate_tag':
+        st['crate_tag'] = rnd.choice([v for v in VALUES[:5] if v != st.get('crate_tag')])
+        return kind
     f = rnd.choice(st['funcs'])
     if kind == 'toggle_kind':
         f['kind'] = 'yield' if f['kind'] == 'return' else 'return'
